@@ -35,7 +35,7 @@ theorem C04_same_values (p : Path) (doc : PyVal) (hne : p.parts ≠ []) (hm : p.
     (h : p.getData (some doc) true = .ok (.list withP)) :
     ∃ vals, p.getData (some doc) false = .ok (.list vals) ∧
       vals.length = withP.length ∧
-      ∀ i v, vals[i]? = some v → ∃ q, withP[i]? = some (PyVal.tuple [v, q]) := by
+      ∀ (i : Nat) (v : PyVal), vals[i]? = some v → ∃ q, withP[i]? = some (PyVal.tuple [v, q]) := by
   sorry
 
 /-- datum modifiers: that function of each selected node -/
